@@ -162,7 +162,7 @@ def rule_fmt(ctx):
            'times are wrapped to the number of segments', i.node, mod)
     cv = ci.methods['_curve_value']
     src = full(cv.node)
-    ctx.ob('C19.fmt', f'{cv.fq}', 'if gpp.ugen_param(curve)._is_valid_ugen_input(): return curve else: return 0' in src, 'named shapes carry curvature 0', cv.node, mod)
+    ctx.ob('C19.fmt', f'{cv.fq}', 'elif gpp.ugen_param(curve)._is_valid_ugen_input(): return curve else: return 0' in src, 'named shapes carry curvature 0', cv.node, mod)
     # EnvGen passes the format as the trailing spec
     eg = ctx.repo.cls('sc3.synth.ugens.envgen:EnvGen')
     for mn in ('ar', 'kr'):
@@ -185,6 +185,30 @@ def rule_fresh(ctx):
         ctx.ob('C19.fmt', f'{f.fq}:not-memoized', not memo,
                f'{mname} returns a stored result ({memo}) that no setter ever invalidates: after range(), duration = x or any assignment '
                f'the first encoding keeps being sent, and _at() evaluates it', f.node, ci.module)
+
+
+def rule_no_format_cache(ctx):
+    ctx.rule('C19.at', 'no method of Env keeps a computed format (or anything derived from the levels/times/curves) in an attribute of '
+                       'the envelope: copies made by range()/copy.copy and plain assignments to the fields would leave it stale')
+    ci = env(ctx)
+    n = 0
+    for mname, f in sorted(ci.methods.items()):
+        if mname == '__init__':
+            continue
+        for x in walk_local(f.node):
+            if isinstance(x, ast.Assign) and any(U.is_self_attr(t) for t in x.targets):
+                src = norm(x.value)
+                derived = '_envgen_format(' in src or '_interpolation_format(' in src
+                n += 1
+                if derived:
+                    ctx.ob('C19.at', f'{f.fq}:{norm(x)[:60]}:no-stored-format', False,
+                           f'Env.{mname} stores a computed format in {norm(x.targets[0])}: nothing invalidates it when the envelope is copied '
+                           f'(range, exprange) or a field is assigned, so later evaluations use the old breakpoints', x, ci.module)
+    a = ci.methods['_at']
+    calls = [c for c in U.calls(a.node) if U.is_self_attr(c.func, '_envgen_format')]
+    stores = [x for x in walk_local(a.node) if isinstance(x, ast.Assign) and any(U.is_self_attr(t) for t in x.targets)]
+    ctx.ob('C19.at', f'{a.fq}:evaluates-current-format', len(calls) == 1 and not stores,
+           '_at computes the format of the current fields on every call and keeps nothing on the object', a.node, ci.module)
 
 
 def rule_at(ctx):
@@ -326,6 +350,7 @@ def rule_ctor(ctx):
 
 def run(ctx):
     rule_fresh(ctx)
+    rule_no_format_cache(ctx)
     rule_shapes(ctx)
     rule_fmt(ctx)
     rule_at(ctx)
@@ -333,6 +358,8 @@ def run(ctx):
 
 
 MUTANTS = [
+    dict(rule='C19.at', name='_at caches the format on the object (seed C19-d)', file='sc3/synth/envelope.py',
+         old="        data = self._envgen_format()", new="        if getattr(self, '_data', None) is None:\n            self._data = self._envgen_format()\n        data = self._data"),
     dict(rule='C19.fmt', name='(fix reverted) _envgen_format memoizes its first result', file='sc3/synth/envelope.py',
          edits=[('sc3/synth/envelope.py', "    def _envgen_format(self):  # Was asMultichannelArray.\n", "    def _envgen_format(self):  # Was asMultichannelArray.\n        if getattr(self, '_fmt', None):\n            return self._fmt\n"),
                 ('sc3/synth/envelope.py', "        return [tuple(i) for i in utl.flop(contents)]\n\n    def _interpolation_format", "        self._fmt = [tuple(i) for i in utl.flop(contents)]\n        return self._fmt\n\n    def _interpolation_format")]),
